@@ -22,7 +22,8 @@ REQUIRED = ["prep_checked:dominion", "prep_checked:hart", "prep_rejections_check
             "manifest_row_labels_not_0_to_n", "manifest_row_labels_not_0_to_n_and_no_phantom_batch",
             "second_lookup_in_same_manifest", "cvr_identifiers_with_zero_padded_card_numbers",
             "sampled_phantom_cvrs_with_another_identifier_prefix", "lookups_with_repeated_sample_numbers", "manifest_columns_not_in_canonical_order",
-            "manifest_counts_stored_unsigned_narrow_or_float", "manifest_already_carries_a_cumulative_count_column"]
+            "manifest_counts_stored_unsigned_narrow_or_float", "manifest_already_carries_a_cumulative_count_column",
+            "sample_given_as_a_series_with_other_row_labels"]
 ASSUMPTIONS = ["unique (tabulator, batch) labels per manifest", "Dominion lookup is 1-based, Hart lookup 0-based, as each "
                "vendor module documents and its test pins", "phantom CVR ids use the documented prefix 'phantom-1-'"]
 N_CASES = {"quick": 8000, "thorough": 64000}
@@ -121,6 +122,7 @@ def run_shard(spec, rec):
         case["count_dtype"] = rng.choice((None, None, "uint64", "uint8", "int32", "float64"))
         case["phantom_prefix"] = rng.choice(("phantom-1-", "phantom-1-", "ph-1-", "Phantom-2-"))
         case["stale_cum"] = rng.random() < 0.15
+        case["sample_container"] = rng.choice(("list", "list", "array", "series", "series_relabelled"))
         run_case(case, rec)
 
 
@@ -215,7 +217,18 @@ def run_case(case, rec):
         sample = rng.sample(valid, min(len(valid), rng.randint(1, 40)))
     rng.shuffle(sample)
     def lookup(sample):
-        ok, res = rec.guard(f"c17.call:{vendor}.sample_from_manifest", V.sample_from_manifest, man, sample)
+        # the drawn numbers as a list, a numpy array or a pandas Series (also one whose row labels are not 0..n-1: the
+        # numbers after sorting or filtering) - a sequence of numbers in every case
+        sc = case.get("sample_container", "list")
+        arg = sample
+        if sc != "list":
+            import pandas as pd
+            arg = (np.array(sample) if sc == "array" else pd.Series(sample) if sc == "series"
+                   else pd.Series(sample, index=list(range(len(sample), 0, -1))))
+            rec.count("sample_given_as_array_or_series")
+            if sc == "series_relabelled":
+                rec.count("sample_given_as_a_series_with_other_row_labels")
+        ok, res = rec.guard(f"c17.call:{vendor}.sample_from_manifest", V.sample_from_manifest, man, arg)
         if not ok:
             return False
         cards, sample_order, mvr_ph = res
